@@ -198,8 +198,9 @@ def r3_alaska(ctx):
         whole = f"self.election_states += {sv}.election_states[1:]" in txt
         one_by_one = lp is not None and any(isinstance(x, ast.Expr) and astx.u(x) == f"self.election_states.append({astx.u(lp.target)})" and x.lineno > shifts[0].lineno for x in lp.body)
         good = good and (whole != one_by_one)
-    ctx.check(good, f, st, "Alaska: STV states[1:] appended with round numbers shifted by +1; STV's final profile returned", str(txt)[:200],
-              f"later-round branch does {txt}")
+    # (recognised by the spelling of its statements: in a function restructured beyond a small edit this clause cannot decide)
+    ctx.check_shape(good, f, st, "Alaska: STV states[1:] appended with round numbers shifted by +1; STV's final profile returned", str(txt)[:200],
+                    f"later-round branch does {txt}")
     # attributes are the unmodified constructor parameters
     init = prog.find_func("Alaska.__init__")
     for attr in ("m_1", "m_2", "transfer", "quota", "simultaneous", "tiebreak"):
